@@ -1,0 +1,17 @@
+//go:build verif
+
+package server
+
+import (
+	"net/url"
+
+	"github.com/DataDog/datadog-traceroute/traceroute"
+)
+
+// VerifParseTracerouteParams exposes parseTracerouteParams.
+func VerifParseTracerouteParams(u *url.URL) (traceroute.TracerouteParams, error) {
+	return parseTracerouteParams(u)
+}
+
+// VerifNewServer builds a Server around the given Traceroute.
+func VerifNewServer(tr *traceroute.Traceroute) *Server { return &Server{tr: tr} }
